@@ -475,6 +475,8 @@ class C09(Cfg):
     rule = ("FILT <storage> <config> <bytes>: configurations with each criterion absent/present, empty and non-empty id "
             "vectors with duplicates, level numbers 0..255, counts around the number of distinct ids; messages over a small "
             "id alphabet with all MSTP/MTIN incl. invalid levels, ECU id absent, no extended header, some mutated; "
+            "SKIPLVL <message type> <level>: skip_with_level for every pair of 18 message types and 14 threshold levels "
+            "(incl. thresholds no numeric configuration produces); "
             "non-trivial = the unfiltered parse yields a message; distinct by request")
     observable = "(class of unfiltered parse, class of filtered parse incl. marker payload length, kept message and remainder identical?)"
     explanation = ("C09_filter / C09_decision: for all byte strings the filtered parse is the unfiltered one with the marker "
@@ -484,6 +486,8 @@ class C09(Cfg):
         return ans.startswith("ITEM")
 
     def classify(self, req, ans, m=None):
+        if req.startswith("SKIPLVL"):
+            return "SKIPLVL:" + ans
         return "FILT:" + re.sub(r"FILTERED:\d+", "FILTERED", ans)
 
     def spec_ok(self, req, ans, spec):
